@@ -106,6 +106,40 @@ func runC16(c *Ctx) {
 			} else {
 				r.Pass("submit/count-before-publish", key, f.PosOf(pushes[0]), "increasePendingTasks precedes Queue.Push on every path")
 			}
+			// a counted task is handed over or un-counted on EVERY way out of Submit - a panic that the
+			// caller may recover included: a count that stays behind keeps WaitIsZero, the dispatcher's
+			// final wait and ShutdownComplete waiting for ever
+			{
+				incs := f.Find(callNamed("increasePendingTasks"))
+				balanced := ""
+				var bw []string
+				for _, a := range incs {
+					if w, found := f.reach(Point{a.B, a.I + 1}, &searchOpts{AvoidNode: func(n ast.Node) bool {
+						return fieldCallN("Queue", "Push")(n) || callNamed("decreasePendingTasks")(n)
+					}}, func(pt Point, atExit bool) bool {
+						if atExit {
+							return true
+						}
+						isPanic := false
+						inspectNoLit(f.nodeAt(pt), func(m ast.Node) bool {
+							if cl, ok := m.(*ast.CallExpr); ok && rawKey(cl.Fun) == "panic" {
+								isPanic = true
+							}
+							return !isPanic
+						})
+						return isPanic
+					}); found {
+						balanced, bw = f.PosOf(a)+": after the pending counter was increased Submit can be left (by a return or a panic) without the task having been queued or the increase having been taken back: the counter never reaches zero again", w
+					}
+				}
+				if len(incs) == 0 {
+					r.Fail("submit/count-balanced", key, p.posStr(fd.Pos()), "no increasePendingTasks in Submit (vacuous)")
+				} else if balanced != "" {
+					r.Fail("submit/count-balanced", key, p.posStr(fd.Pos()), balanced, bw...)
+				} else {
+					r.Pass("submit/count-balanced", key, p.posStr(fd.Pos()), "every way out after the increase queues the task or decrements again")
+				}
+			}
 			// done callback
 			okCb := false
 			ast.Inspect(fd.Body, func(n ast.Node) bool {
